@@ -106,6 +106,34 @@ fn string_case(e: usize, s: String, obs: &mut Obs) -> CaseResult {
     if dacc != is_valid {
         return Err(fail("decoder", format!("decoding {:?} as {} accepted={}, expected {}", s, name, dacc, is_valid)));
     }
+    // the same characters under another CBOR type or wrapping are not the identifier: a byte string,
+    // a one-element array, a tagged text, a text string with a non-minimal length prefix
+    {
+        let as_bytes = refcbor::encode(&Value::Bytes(s.as_bytes().to_vec()));
+        let as_array = refcbor::encode(&Value::Array(vec![Value::text(&s)]));
+        let as_tag = refcbor::encode(&Value::Tag(0, Box::new(Value::text(&s))));
+        let mut wide = vec![0x78, s.len() as u8];
+        wide.extend_from_slice(s.as_bytes());
+        for (what, enc) in [("byte-string", as_bytes), ("array", as_array), ("tagged", as_tag), ("non-minimal-length", wide)] {
+            if what == "non-minimal-length" && s.len() >= 24 {
+                continue;
+            }
+            obs.sub_evals += 1;
+            let accepted = match e {
+                0 => cbor_deserialize::<Version>(&enc).is_ok(),
+                1 => cbor_deserialize::<Extension>(&enc).is_ok(),
+                2 => cbor_deserialize::<Transport>(&enc).is_ok(),
+                _ => cbor_deserialize::<AttestationStatementFormat>(&enc).is_ok(),
+            };
+            if accepted {
+                return Err(Fail::new(
+                    format!("C18:{}:decoder:accepted-as-{}", name, what),
+                    format!("{:?} encoded as a {} ({}) was accepted as a {}", s, what, hex(&enc), name),
+                    json!({"enumeration": name, "string": s, "input_hex": hex(&enc)}),
+                ));
+            }
+        }
+    }
     if is_valid {
         if back.as_deref() != Some(s.as_str()) {
             return Err(fail("spelling", format!("{:?} converts to a {} that spells {:?}", s, name, back)));
@@ -472,7 +500,7 @@ pub fn crossovers() -> Vec<String> {
     out.into_iter().collect()
 }
 
-pub const RULE: &str = "Exhaustive for every table. Cross-combinations of two valid spellings (concatenation, spelling + every suffix of another, prefix + spelling, prefix/suffix cross-overs) are presented to every string enumeration as well. String enumerations (Version, Extension, Transport, AttestationStatementFormat): every valid spelling of every enumeration is presented to every enumeration, together with every single-character deletion, substitution and insertion over [A-Za-z0-9_-], every case change, every proper prefix, one-character extensions, padded and NUL-terminated variants and the empty string - accepted iff the string is a valid spelling of THAT enumeration - through TryFrom<&str>/From and through cbor_deserialize/cbor_serialize; plus proptest random strings. Numeric enumerations (PinV1Subcommand, Subcommand, CredentialProtectionPolicy, ControlByte): all 256 byte values through TryFrom<u8> where it exists and through the decoder, integers at every head-width threshold up to 2^64-1, and negative integers. One whole-table case: `as u8` of every named status against the CTAP status table, permission bits, the spelling / number of every variant, pairwise distinct codes. Oracle: the specification tables in the harness. Every probe is a distinct (table, value) pair.";
+pub const RULE: &str = "Exhaustive for every table. Every probed string is additionally presented to the decoder as a byte string, a one-element array, a tagged text and a text with a non-minimal length prefix (all must be rejected). Cross-combinations of two valid spellings (concatenation, spelling + every suffix of another, prefix + spelling, prefix/suffix cross-overs) are presented to every string enumeration as well. String enumerations (Version, Extension, Transport, AttestationStatementFormat): every valid spelling of every enumeration is presented to every enumeration, together with every single-character deletion, substitution and insertion over [A-Za-z0-9_-], every case change, every proper prefix, one-character extensions, padded and NUL-terminated variants and the empty string - accepted iff the string is a valid spelling of THAT enumeration - through TryFrom<&str>/From and through cbor_deserialize/cbor_serialize; plus proptest random strings. Numeric enumerations (PinV1Subcommand, Subcommand, CredentialProtectionPolicy, ControlByte): all 256 byte values through TryFrom<u8> where it exists and through the decoder, integers at every head-width threshold up to 2^64-1, and negative integers. One whole-table case: `as u8` of every named status against the CTAP status table, permission bits, the spelling / number of every variant, pairwise distinct codes. Oracle: the specification tables in the harness. Every probe is a distinct (table, value) pair.";
 pub const ASSUMPTIONS: &[&str] = &["identifier tables transcribed from CTAP 2.1 (sections 6.4, 6.5.5, 6.8, 8.2) and the U2F raw message format"];
 
 pub fn run(ctx: &mut Ctx) {
